@@ -40,8 +40,60 @@ package exprtransform
 //@   ensures[cond-free] allcondfree(result)
 //@   ensures[covers] anysame(result, val(ex))
 
+// tree2(k, v, s): variant v of tree k (v = 0: the same shape with independent
+// constants; v > 0: one node changed in operator, width, key or kind).
+// sameexpr(a, b): identically built trees (shape, operators, widths, keys,
+// constant bytes).
+
 //@ func Equal
-//@   enum k in TREES, d in TREEDELTA
+//@   enum k in TREES, v in VARIANTS
 //@   input:ex1 tree(k, "a")
-//@   input:ex2 tree(k + d, "b")
-//@   ensures result == sameexpr(ex1, ex2)
+//@   input:ex2 tree2(k, v, "b")
+//@   ensures[exact] result == sameexpr(ex1, ex2)
+
+// found_is_preorder(r, ex): r lists exactly the nodes of kind T of ex in
+// pre-order.
+
+//@ func FindAll
+//@   enum k in TREES
+//@   input:ex tree(k)
+//@   ensures[preorder] found_is_preorder(result, ex)
+
+// replacer(m): m = 0 declines every node; m = 1 is the replacement function of
+// the corpus for kind T (RegLoad r1 -> RegLoad q; Binary Add -> its first
+// operand; MemLoad -> RegLoad mm; Less -> its true branch; 1-byte Const ->
+// RegLoad cc). subst_spec(ex, m): the bottom-up substitution, computed
+// independently; subst_matches(ex, m): some node is replaced.
+
+//@ func ReplaceAll
+//@   enum k in TREES, m in REPLMODES
+//@   input:ex tree(k)
+//@   input:f replacer(m)
+//@   ensures[substituted] sameexpr(result, subst_spec(ex, m))
+//@   ensures[same-tree-when-nothing-matches] !subst_matches(ex, m) ==> sametree(result, ex)
+
+// effect_of(ek, k): a register write (ek = 0) or memory write (ek = 1) whose
+// operands are trees of the corpus; effects_list(k, n): n such effects.
+// wrapper(): the transformation e -> Nand(e, 0).
+
+//@ func Exprs
+//@   enum k in TREES, ek in EKINDS
+//@   input:effect effect_of(ek, k)
+//@   ensures[operands] exprs_are_operands(result, effect)
+
+//@ func ExprsMany
+//@   enum k in TREES, n in ELENS
+//@   input:effects effects_list(k, n)
+//@   ensures[operands-in-order] exprsmany_ok(result, effects)
+
+//@ func EffectApply
+//@   enum k in TREES, ek in EKINDS
+//@   input:effect effect_of(ek, k)
+//@   input:f wrapper()
+//@   ensures[kind-key-width-operands] effect_applied_ok(result, effect)
+
+//@ func EffectsApply
+//@   enum k in TREES, n in ELENS
+//@   input:effects effects_list(k, n)
+//@   input:f wrapper()
+//@   ensures[each-in-order] effects_applied_ok(result, effects)
